@@ -263,6 +263,16 @@ def harness_build(timeout=3000):
 
 
 # ---------------------------------------------------------------- running the two sides
+def die_with_parent():
+    """preexec_fn for child processes: the kernel kills the child when this process dies (a check that is
+    killed from outside must not leave model or harness processes spinning on the machine)."""
+    try:
+        import ctypes, signal
+        ctypes.CDLL("libc.so.6", use_errno=True).prctl(1, signal.SIGKILL)   # PR_SET_PDEATHSIG
+    except Exception:
+        pass
+
+
 def run_lines(binary, args, lines, timeout=600, shards=16, env=None, _retry=0):
     """Feeds case lines to `binary args` over stdin in parallel shards; returns list of output
     lines aligned with input lines. A shard that dies yields 'ABORT' for its unanswered cases."""
@@ -277,7 +287,7 @@ def run_lines(binary, args, lines, timeout=600, shards=16, env=None, _retry=0):
         e.update(env)
     for ch in chunks:
         p = subprocess.Popen([binary] + args, stdin=subprocess.PIPE, stdout=subprocess.PIPE,
-                             stderr=subprocess.DEVNULL, text=True, env=e)
+                             stderr=subprocess.DEVNULL, text=True, env=e, preexec_fn=die_with_parent)
         procs.append((p, ch))
     import threading
     results = [None] * n
